@@ -78,7 +78,7 @@ def run(tier):
     t0 = time.time()
     v = common.Verdict(PROP)
     base = {"NS": "3", "MaxRx": "1", "MaxSide": "2", "MaxDSide": "1", "Mode": '"exh"'}
-    cfg = common.make_cfg("crngen_exh", spec="Spec", constants=base, invariants=["Refinement", "UnsetBlocks", "Emit"])
+    cfg = common.make_cfg("crngen_exh", spec="Spec", constants=base, invariants=["Refinement", "UnsetBlocks", "RejectedAttemptsLeaveNoTrace", "Emit"])
     r1 = common.run_tlc("CrnGen", cfg, allow_violation=True, keep_stdout=False)
     if r1.violated:
         v.violation("spec:" + r1.violated, "TLC refuted %s on Crn.tla" % r1.violated, {"tlc_tail": r1.stdout[-3000:]})
@@ -89,7 +89,7 @@ def run(tier):
     for k, (ns, mr, ms, md, n) in enumerate(sims):
         cfg = common.make_cfg("crngen_sim%d" % k, spec="Spec",
                               constants={"NS": ns, "MaxRx": mr, "MaxSide": ms, "MaxDSide": md, "Mode": '"sim"'},
-                              invariants=["Refinement", "UnsetBlocks", "Emit"])
+                              invariants=["Refinement", "UnsetBlocks", "RejectedAttemptsLeaveNoTrace", "Emit"])
         r = common.run_tlc("CrnGen", cfg, workers=1, simulate=n, depth=8, tlc_seed=common.seed() * 7 + k, deadlock=False, keep_stdout=False)
         recs += r.records
         nsim += len(r.records)
